@@ -45,7 +45,7 @@ From Coq Require Import String Permutation.
 From Mux Require Import Model.Bytes Model.Regex Model.Context Model.Syntax Model.Tree Model.Match
      Spec.Table Spec.Resolve
      Proofs.MatchSound Proofs.TreeSafe Proofs.TokensSplit Proofs.TreeNames Proofs.TreeLit Proofs.TreeWitness
-     Proofs.TreeAbs Proofs.TreeResolve2 Proofs.HostsTree Proofs.HostsResolve.
+     Proofs.TreeAbs Proofs.TreeResolve2 Proofs.HostsTree Proofs.HostsResolve Proofs.HostsRestore.
 
 (* ================================================================ the definitions, spelled out *)
 Theorem C14_hist_ops_cons : forall op hist, hist_ops (op :: hist) =
@@ -93,12 +93,12 @@ Print Assumptions C14_hosts_answer_spec.
 
 Theorem C14_match_answer : forall t host ps,
   hosts_match t host [] = Some (true, ps) <-> exists dom, hosts_answer t host = Some (dom, ps).
-Proof. exact hosts_match_answer. Qed.
+Proof. exact hosts_match_answer_r. Qed.
 Print Assumptions C14_match_answer.
 
 Theorem C14_match_reject : forall t host, tree_safe t ->
   (exists ps, hosts_match t host [] = Some (false, ps)) <-> hosts_answer t host = None.
-Proof. exact hosts_match_reject. Qed.
+Proof. exact hosts_match_reject_r. Qed.
 Print Assumptions C14_match_reject.
 
 (* ================================================================ 1. the bridge *)
@@ -119,7 +119,7 @@ Theorem C14_bridge_counterexample :
   let t := fold_left tstep (hist_ops cx_bridge_hist) (new_tree (bs "host") (hist_ic cx_bridge_hist) true) in
   hosts_match t (bs "digit.com") [] = Some (false, []) /\
   hosts_match t (bs "5.com") [] = Some (true, [(bs "x", bs "5")]).
-Proof. exact cx_bridge_facts. Qed.
+Proof. exact cx_bridge_facts_r. Qed.
 Print Assumptions C14_bridge_counterexample.
 
 (* ================================================================ the registered domains *)
@@ -158,9 +158,10 @@ Proof. exact hosts_domains_delete. Qed.
 Print Assumptions C14_hosts_domains_delete.
 
 (* ================================================================ "" and "*" *)
-Theorem C14_hosts_special_rejected : forall hist host ps, special (normalise_host host) ->
+(* [ctx_nodup ps]: the incoming context is a map (no key twice), which Hosts.Match rebuilds key by key *)
+Theorem C14_hosts_special_rejected : forall hist host ps, ctx_nodup ps -> special (normalise_host host) ->
   hosts_match (hosts_reach hist) host ps = Some (false, ps).
-Proof. exact hosts_special_rejected. Qed.
+Proof. exact hosts_special_rejected_r. Qed.
 Print Assumptions C14_hosts_special_rejected.
 
 (* everything Hosts.Match can do on a reachable tree (every history) *)
@@ -174,7 +175,7 @@ Theorem C14_hosts_match_cases : forall hist host,
                     hosts_match t host [] = Some (true, ps) /\ hosts_answer t host = Some (npat n, ps)) \/
     (exists h, tree_handler t GET host' [] = HFound false None h [] /\
                hosts_match t host [] = Some (false, []) /\ hosts_answer t host = None))).
-Proof. exact hosts_match_cases. Qed.
+Proof. exact hosts_match_cases_r. Qed.
 Print Assumptions C14_hosts_match_cases.
 
 (* ================================================================ 2. refinement to the documented resolver *)
@@ -187,7 +188,7 @@ Theorem C14_hosts_refines_resolver : forall hist host,
   | Some (false, ps) => ps = [] /\ (special host' \/ resolve (hist_ic hist) (hosts_table hist) host' = [])
   | None => False
   end.
-Proof. exact hosts_refines_resolver. Qed.
+Proof. exact hosts_refines_resolver_r. Qed.
 Print Assumptions C14_hosts_refines_resolver.
 
 Theorem C14_hosts_refines_resolver_any_order : forall hist host table,
@@ -200,7 +201,7 @@ Theorem C14_hosts_refines_resolver_any_order : forall hist host table,
   | Some (false, ps) => ps = [] /\ (special host' \/ resolve (hist_ic hist) table host' = [])
   | None => False
   end.
-Proof. exact hosts_refines_resolver_any_order. Qed.
+Proof. exact hosts_refines_resolver_any_order_r. Qed.
 Print Assumptions C14_hosts_refines_resolver_any_order.
 
 Theorem C14_hosts_accepts_iff_resolves : forall hist host,
@@ -208,7 +209,7 @@ Theorem C14_hosts_accepts_iff_resolves : forall hist host,
   ~ special (normalise_host host) ->
   ((exists ps, hosts_match (hosts_reach hist) host [] = Some (true, ps)) <->
    resolve (hist_ic hist) (hosts_table hist) (normalise_host host) <> []).
-Proof. exact hosts_accepts_iff_resolves. Qed.
+Proof. exact hosts_accepts_iff_resolves_r. Qed.
 Print Assumptions C14_hosts_accepts_iff_resolves.
 
 Theorem C14_hosts_resolver_unrestricted_refuted :
@@ -216,7 +217,7 @@ Theorem C14_hosts_resolver_unrestricted_refuted :
        regs_first hist = true -> no_del hist = true -> hosts_tokens hist = true -> hosts_canonb hist = true ->
        hosts_match (hosts_reach hist) host [] = Some (false, ps) ->
        resolve (hist_ic hist) (hosts_table hist) (normalise_host host) = []).
-Proof. exact hosts_resolver_unrestricted_refuted. Qed.
+Proof. exact hosts_resolver_unrestricted_refuted_r. Qed.
 Print Assumptions C14_hosts_resolver_unrestricted_refuted.
 
 Theorem C14_special_counterexample :
@@ -227,7 +228,7 @@ Theorem C14_special_counterexample :
   hosts_match (hosts_reach cx_special_hist) [] [] = Some (false, []) /\
   resolve (hist_ic cx_special_hist) (hosts_table cx_special_hist) (normalise_host (bs "*")) = [(bs "*", [])] /\
   resolve (hist_ic cx_special_hist) (hosts_table cx_special_hist) (normalise_host []) = [(bs "{any}", [(bs "any", [])])].
-Proof. exact cx_special_facts. Qed.
+Proof. exact cx_special_facts_r. Qed.
 Print Assumptions C14_special_counterexample.
 
 (* ================================================================ 3. Delete: frame and gone (histories with Deletes) *)
@@ -238,7 +239,7 @@ Theorem C14_hosts_delete_frame : forall hist d host,
   (forall dom ps, hosts_answer t host = Some (dom, ps) -> dom <> to_lower d ->
      hosts_answer t' host = Some (dom, ps) /\ hosts_match t' host [] = Some (true, ps)) /\
   (forall ps, hosts_match t host [] = Some (false, ps) -> hosts_match t' host [] = Some (false, ps)).
-Proof. exact hosts_delete_frame. Qed.
+Proof. exact hosts_delete_frame_r. Qed.
 Print Assumptions C14_hosts_delete_frame.
 
 Theorem C14_hosts_deleted_gone : forall hist d host dom ps,
@@ -277,7 +278,7 @@ Theorem C14_hosts_sound_match : forall hist host ps,
   exists chain n, chain_to (troot (hosts_reach hist)) chain n /\ npat n = dom /\
     dom = concat (map (fun cv => sval (nseg (fst cv))) chain) /\
     normalise_host host = wpath chain /\ ps = wparams chain [] /\ Forall value_ok chain.
-Proof. exact hosts_sound_match. Qed.
+Proof. exact hosts_sound_match_r. Qed.
 Print Assumptions C14_hosts_sound_match.
 
 (* a walk of the tree is a chain (used for C14_hosts_sound; any tree) *)
@@ -301,7 +302,7 @@ Theorem C14_hosts_live_served : forall hist chain n host,
   normalise_host host = wpath chain -> wpath chain <> bs "*" ->
   exists dom ps, hosts_answer t host = Some (dom, ps) /\ hosts_match t host [] = Some (true, ps) /\
                  In dom (hosts_domains hist).
-Proof. exact hosts_live_served. Qed.
+Proof. exact hosts_live_served_r. Qed.
 Print Assumptions C14_hosts_live_served.
 
 Theorem C14_hosts_live_served_exact : forall hist chain n host,
@@ -311,7 +312,7 @@ Theorem C14_hosts_live_served_exact : forall hist chain n host,
   normalise_host host = wpath chain -> wpath chain <> bs "*" ->
   hosts_answer t host = Some (npat n, wparams chain []) /\
   hosts_match t host [] = Some (true, wparams chain []).
-Proof. exact hosts_live_served_exact. Qed.
+Proof. exact hosts_live_served_exact_r. Qed.
 Print Assumptions C14_hosts_live_served_exact.
 
 Theorem C14_hosts_literal_served : forall hist d n host,
@@ -320,7 +321,7 @@ Theorem C14_hosts_literal_served : forall hist d n host,
   desc (troot t) n -> npat n = d -> In d (hosts_domains hist) -> no_brace d -> d <> bs "*" ->
   no_empty_param n -> normalise_host host = d ->
   hosts_answer t host = Some (d, []) /\ hosts_match t host [] = Some (true, []).
-Proof. exact hosts_literal_served. Qed.
+Proof. exact hosts_literal_served_r. Qed.
 Print Assumptions C14_hosts_literal_served.
 
 (* every node below the root ends a chain, with any choice of values: the theorems are not vacuous *)
@@ -386,13 +387,13 @@ Theorem C14_example_either_may_win :
     [bs "{sub}.example.com"; bs "{tenant}.{region:word}.cloud.example.com"] /\
   hosts_match (hosts_reach exr_adds) (bs "Acme.EU.cloud.example.com:8443") [] =
     Some (true, [(bs "sub", bs "acme.eu.cloud")]).
-Proof. exact exr_either_may_win. Qed.
+Proof. exact exr_either_may_win_r. Qed.
 Print Assumptions C14_example_either_may_win.
 
 Theorem C14_example_frame : forall host dom ps,
   hosts_answer (hosts_reach exr_adds) host = Some (dom, ps) -> dom <> bs "www.example.com" ->
   hosts_match (hosts_reach exr_hist) host [] = Some (true, ps).
-Proof. exact exr_frame. Qed.
+Proof. exact exr_frame_r. Qed.
 Print Assumptions C14_example_frame.
 
 Theorem C14_example_gone : forall host dom ps,
@@ -425,5 +426,5 @@ Theorem C14_example_served :
   (exists dom ps, hosts_answer (hosts_reach exr_hist) (bs "qq.zz.cloud.example.com") = Some (dom, ps) /\
                   In dom (hosts_domains exr_hist)) /\
   hosts_match (hosts_reach exr_hist) (bs "API.example.com") [] = Some (true, []).
-Proof. exact exr_served. Qed.
+Proof. exact exr_served_r. Qed.
 Print Assumptions C14_example_served.
